@@ -14,7 +14,8 @@ Row = (cls, act, role)
        3 delete-char on delete / c-delete; 4 undo handler bound to 'u' (vi);
        5 undo handler bound to c-_ or c-x c-u (emacs);
        6 Vi multiple-cursor insert on <any>; 7 the cursor-position-report binding;
-       8 kill-line on c-k; 9 kill-word on escape d; 10 yank on c-y; 0 anything else
+       8 kill-line on c-k; 9 kill-word on escape d; 10 yank on c-y;
+       11 backward-char on left / c-b; 12 forward-char on right / c-f; 0 anything else
 Fail closed (exit 2) on anything unexpected.
 """
 import hashlib
@@ -100,6 +101,10 @@ def row_of(binding):
         role = 9
     elif h is get_by_name("yank").handler and keys == (Keys.ControlY,):
         role = 10
+    elif h is get_by_name("backward-char").handler and keys in ((Keys.Left,), (Keys.ControlB,)):
+        role = 11
+    elif h is get_by_name("forward-char").handler and keys in ((Keys.Right,), (Keys.ControlF,)):
+        role = 12
     name = "%s.%s" % (getattr(h, "__module__", "?").replace("prompt_toolkit.", ""), getattr(h, "__qualname__", "?"))
     return (cls, act, role), " ".join(str(key_name(k)) for k in keys), name
 
